@@ -103,6 +103,20 @@ def normalise(trace, idmap):
             out.append('nt:%s:%s/%s' % (mach, rev.get(mach, {}).get(int(sid), '#' + sid), evd))
         elif t.startswith('xc:'):
             out.append(_any_re.sub(r'/\1', t))
+        elif t.startswith('PB{') or t.startswith('pb{'):
+            # probe: keep the raw text but map the ids part
+            body = t[3:-1]
+            parts = []
+            for p in body.split(';'):
+                if not p:
+                    continue
+                k, _, v = p.partition('=')
+                if k in rev and ':' not in k and not k.startswith(('v_', 'act', 'byid', 'fl')):
+                    names = [rev[k].get(int(i), '#%s' % i) for i in v.split(',') if i != '']
+                    parts.append('%s=%s' % (k, ','.join(names)))
+                else:
+                    parts.append(p)
+            out.append(t[:3] + ';'.join(parts) + ';}')
         elif t.startswith('fired='):
             continue
         else:
